@@ -222,12 +222,27 @@ fn c04_bulk(report: &mut Report, tier: Tier) {
         let second: Vec<Vec<f32>> = (0..2).map(|k| (0..d).map(|j| if k % 2 == 0 { -1.0 } else { 1.0 } * big * (1.0 - 0.013 * ((k + 2 * j) % 4) as f32)).collect()).collect();
         datasets.push(("huge-one-sign-euclidean-d4".to_string(), Metric::Euclidean, d, first, second));
     }
+    // many enormous vectors in one node: the centroids of the split construction overflow (x * c + x, p - q)
+    {
+        let d = 4usize;
+        let big = f32::MAX * 0.9;
+        let mut first: Vec<Vec<f32>> = (0..30).map(|i| (0..d).map(|j| (((i * 7 + j * 3) % 11) as f32 - 5.0) + if j == 0 { 0.5 } else { 0.0 }).collect()).collect();
+        for k in 0..30usize {
+            first.push((0..d).map(|j| if (k >> j) & 1 == 0 { 1.0 } else { -1.0 } * big * (1.0 - 0.003 * ((k + j) % 7) as f32)).collect());
+        }
+        let second: Vec<Vec<f32>> = (0..10usize).map(|k| (0..d).map(|j| if (k >> j) & 1 == 1 { 1.0 } else { -1.0 } * big * (1.0 - 0.004 * ((k + 2 * j) % 5) as f32)).collect()).collect();
+        datasets.push(("huge-many-euclidean-d4".to_string(), Metric::Euclidean, d, first.clone(), second.clone()));
+        datasets.push(("huge-many-manhattan-d4".to_string(), Metric::Manhattan, d, first, second));
+    }
     let mut judged_total = 0u64;
     let mut lookups_total = 0u64;
     let mut builds = 0u64;
     crate::explore::in_single_thread_pool(|| {
         for (label, metric, d, first, second) in &datasets {
-            for n_trees in [1usize, 3] {
+            // the enormous-vector dataset is small: it is built under eight seeds (whether a split draws two
+            // enormous centroids, and overflows, depends on the seed)
+            let seeds: u64 = if label.starts_with("huge") { 8 } else { 1 };
+            for (n_trees, seed_k) in [1usize, 3].into_iter().flat_map(|t| (0..seeds).map(move |k| (t, k))) {
                 let s = Scratch::with_map_size("c04b", 1 << 28);
                 let r = catch(|| -> Result<(u64, u64), (String, String)> {
                     crate::with_metric!(*metric, D => {
@@ -249,7 +264,7 @@ fn c04_bulk(report: &mut Report, tier: Tier) {
                                     model.remove(&(i as u32));
                                 }
                             }
-                            let mut rng = <rand::rngs::StdRng as rand::SeedableRng>::seed_from_u64(crate::common::verif_seed() + round as u64);
+                            let mut rng = <rand::rngs::StdRng as rand::SeedableRng>::seed_from_u64(crate::common::verif_seed() + round as u64 + 1000 * seed_k);
                             w.builder(&mut rng).n_trees(n_trees).build(&mut wtxn).map_err(|e| ("R/bulk-build".to_string(), e.to_string()))?;
                             let kv = s.dump(&wtxn);
                             let ix = decode_index(&kv, 0, *metric, *d).map_err(|e| ("F/undecodable".to_string(), e))?;
@@ -260,6 +275,8 @@ fn c04_bulk(report: &mut Report, tier: Tier) {
                             let n = model.len();
                             if std::env::var("VERIF_DEBUG_C04").is_ok() {
                                 let huge: Vec<u32> = model.iter().filter(|(_, v)| v.iter().any(|b| f32::from_bits(*b).abs() > 1e30)).map(|(id, _)| *id).collect();
+                                let nonfinite = ix.trees.values().filter(|t| matches!(t, crate::layout::TreeNode::Split { normal, .. } if normal.chunks(4).any(|c| !f32::from_le_bytes([c[0], c[1], c[2], c[3]]).is_finite()))).count();
+                                eprintln!("{label} trees={n_trees} round={round}: split normals with a non-finite component: {nonfinite}");
                                 eprintln!("{label} trees={n_trees} round={round}: huge items {huge:?}, clean among them {:?}, planes judged {} degenerate {} uncertain {}", huge.iter().filter(|i| clean.contains(i)).collect::<Vec<_>>(), stats.planes_judged, stats.planes_degenerate, stats.margins_zero_or_uncertain);
                             }
                             for id in clean.iter() {
